@@ -47,6 +47,7 @@ ASSUMPTIONS = [
 ]
 
 FINDING = "C04-service-signature-vacuous"
+FINDING_LEAF = "C04-unbound-stepwise-leaf"
 SHIPPED = ["LinearController", "RelativeSupplyController", "Stepwise", "DemandSwitch", "Buffer", "Logger",
            "Standardiser", "FactoryPool"]
 
@@ -252,17 +253,17 @@ def live_layers(cls):
             new = d["__new__"]
             new = getattr(new, "__func__", new)
             s = sig_of_callable(new, True)
-            if not (s["po"] or s["pk"] or s["ko"]) and s["va"] and s["vk"]:
-                layer["service"] = True          # the wrapper as it is: (cls, *args, **kwargs)
-            else:
+            running = init_function(base)
+            if running is not None and s == sig_of_callable(running, True):
                 # a wrapper that advertises the signature of the __init__ that runs (what a repair of the
                 # known defect would do) is, for inspect and for binding alike, that __init__
-                running = init_function(base)
-                if running is None or s != sig_of_callable(running, True):
-                    raise ValueError("user-defined __new__ that is not the service wrapper: outside the model")
                 layer["init"] = s
                 out.append(layer)
                 continue
+            if not (s["po"] or s["pk"] or s["ko"]) and s["va"] == "args" and s["vk"] == "kwargs":
+                layer["service"] = True          # the wrapper as it is: (cls, *args, **kwargs)
+            else:
+                raise ValueError("user-defined __new__ that is not the service wrapper: outside the model")
         if "__init__" in d:
             layer["init"] = sig_of_callable(d["__init__"], True)
         out.append(layer)
@@ -277,12 +278,14 @@ def init_function(cls):
 
 
 def shadowed_by_new(cls):
-    """the first class of the MRO that defines __new__ or __init__ defines __new__ (then inspect reports it)"""
+    """the known defect class: the first class of the MRO that defines __new__ or __init__ defines __new__
+    (then inspect reports __new__) and what inspect reports is not the signature of the __init__ that runs"""
     for base in cls.__mro__:
         if base is object:
             continue
         if "__new__" in vars(base):
-            return True
+            running = init_function(cls)
+            return running is None or sig_of_callable(cls, False) != sig_of_callable(running, True)
         if "__init__" in vars(base):
             return False
     return False
@@ -437,10 +440,22 @@ def mk_element(rng, classes, kind, atoms, mode="valid", how="s"):
     return {"c": len(classes) - 1, "how": how, "calls": split_calls(rng, pos, kw, mode, atoms)}
 
 
+def mk_quirk_element(rng, classes, atoms):
+    """decorator whose constructor has **kwargs and a defaulted positional-only formal that a keyword names:
+    a real call binds (the keyword lands in **kwargs), CPython<=3.12 inspect refuses it"""
+    ko = [["k", rng.random() < 0.5]] if rng.random() < 0.5 else []
+    s = {"po": [["target", False], ["q", True]], "pk": [["r", True]] if rng.random() < 0.5 else [], "va": None,
+         "ko": ko, "vk": "extra"}
+    classes.append({"kind": "D", "layers": [{"service": False, "init": s}]})
+    kw = [["q", atoms.new(rng)]] + [[p[0], atoms.new(rng)] for p in ko if not p[1]]
+    pos = [atoms.new(rng)] if rng.random() < 0.3 else []       # with one positional q is filled: no quirk, accepted
+    return {"c": len(classes) - 1, "how": "s", "calls": split_calls(rng, pos, kw, "valid", atoms)}
+
+
 def gen_chain(rng, n, shape=None, tail_form=None, quality=None):
     atoms = Atoms()
     classes = []
-    quality = quality or rng.choice(["valid"] * 6 + ["incomplete", "bad", "bad", "dup", "illkinded"])
+    quality = quality or rng.choice(["valid"] * 12 + ["incomplete"] * 2 + ["bad"] * 4 + ["dup"] * 2 + ["illkinded"] * 2 + ["quirk"])
     bad_at = rng.randrange(n + 1)
     elems = []
     for i in range(n):
@@ -457,6 +472,9 @@ def gen_chain(rng, n, shape=None, tail_form=None, quality=None):
                 kind, how = "P", "s"
             else:
                 how = rng.random() < 0.5
+        if quality == "quirk" and i == min(bad_at, n - 1):
+            elems.append(mk_quirk_element(rng, classes, atoms))
+            continue
         elems.append(mk_element(rng, classes, kind, atoms, mode, how))
     tail_form = tail_form or rng.choice(["inst", "tmpl", "curried"])
     if tail_form == "inst":
@@ -524,6 +542,8 @@ def corpus(tier):
     for name in SHIPPED:
         yield {"t": "sig", "classes": [{"shipped": name}]}
         yield shipped_template(name, [[[], []]], unbound_rules=(1 if name == "Stepwise" else None))
+    for _ in range(4):
+        yield gen_chain(rng, 2, quality="quirk")
     # every parenthesisation, three tail forms
     top = 6 if tier == "thorough" else 5
     for n in range(1, top + 1):
@@ -785,6 +805,11 @@ def oracle(case, obs):
                     v.append((FINDING, "eager check vacuous: %s accepted arguments that can never bind "
                               "(class wrapped by the service decorator)" % ("shipped " + case["classes"][el["c"]]["shipped"]
                                                                           if shipped else "synthesised class")))
+                elif "unbound" in el:
+                    # masked by the service defect on the unchanged tree: UnboundStepwise.s passes __leaf__=True for
+                    # a controller, so the check leaves out the target slot (stepwise.py:193)
+                    v.append((FINDING_LEAF, "eager check misses the target slot: UnboundStepwise.s accepted arguments that "
+                              "can never bind to Stepwise(target, base, *rules, ...)"))
                 else:
                     v.append((None, "eager check too weak: accepted arguments that can never bind: pos=%d kw=%s"
                               % (len(full_pos), sorted(kw))))
@@ -1028,7 +1053,22 @@ def shrink(case, still_fails):
     if case["t"] != "chain":
         return case
     cur = case
-    # fewer curry calls per element, then simpler arguments
+    # shorter chains (left-nested shape over what remains), then fewer curry calls per element
+    changed = True
+    while changed and len(cur["elems"]) > 1:
+        changed = False
+        for i in range(len(cur["elems"])):
+            elems = cur["elems"][:i] + cur["elems"][i + 1:]
+            shape = 0
+            for j in range(1, len(elems) + 1):
+                shape = [shape, j]
+            cand = dict(cur, elems=elems, shape=shape)
+            try:
+                if still_fails(cand):
+                    cur, changed = cand, True
+                    break
+            except Exception:     # noqa
+                pass
     changed = True
     while changed:
         changed = False
